@@ -8,7 +8,7 @@ import re
 import pexpect
 
 from . import shim
-from .world import World, SimHang, SimShutdown, HarnessError, US
+from .world import World, SimHang, SimShutdown, SimInterrupt, HarnessError, US
 from .kernel import Kernel, PtyMaster, PtySlave, OPOST, ECHO, ICANON, ISIG, ICRNL
 from . import peers
 from . import transports as T
@@ -297,7 +297,11 @@ class Run(object):
         rec = {'k': k, 'op': kind, 't0': w.now, 'cost0': w.cost_total, 'c0': len(child.chunks) if child is not None and hasattr(child, 'chunks') else 0}
         w.note('op', (k, kind))
         try:
-            rec['ret'] = self.dispatch(kind, op)
+            w.intr_armed = True
+            try:
+                rec['ret'] = self.dispatch(kind, op)
+            finally:
+                w.intr_armed = False
             rec['out'] = 'ret'
         except EOF as e:
             rec['out'] = 'EOF'
@@ -312,6 +316,9 @@ class Run(object):
             raise
         except HarnessError:
             raise
+        except SimInterrupt as e:
+            rec['out'] = 'INTR'          # abandoned from outside (Ctrl-C / a raising signal handler) while it waited
+            rec['exc'] = e
         except Exception as e:
             rec['out'] = 'EXC'
             rec['exc'] = e
